@@ -22,6 +22,22 @@ type EngCfg struct {
 	Delims []string `json:"delims,omitempty"` // objectLeft, objectRight, tagLeft, tagRight (Engine.Delims)
 }
 
+// Callback faults: the k-th invocation of a harness callback (custom tag, block,
+// filter) fails -- the "crash at an arbitrary instant" of a render, as seen from the
+// library: user code it called returned an error or panicked.
+var cbCountdown int // 0 = off
+var errCallback = errors.New("verif-injected-callback-failure")
+
+func cbTick() error {
+	if cbCountdown > 0 {
+		cbCountdown--
+		if cbCountdown == 0 {
+			return errCallback
+		}
+	}
+	return nil
+}
+
 // NewEngine builds an engine with the standard tags/filters plus the harness's
 // own tag, block and filter (they exercise RegisterTag/RegisterBlock/RegisterFilter).
 // apply makes Source() emit this configuration's delimiters.
@@ -87,6 +103,9 @@ func NewEngine(c EngCfg) *liquid.Engine {
 		return "(" + s + ")", nil
 	})
 	e.RegisterTag("echo", func(ctx render.Context) (string, error) {
+		if err := cbTick(); err != nil {
+			return "", err
+		}
 		v, err := ctx.EvaluateString(ctx.TagArgs())
 		if err != nil {
 			return "", err
@@ -94,13 +113,21 @@ func NewEngine(c EngCfg) *liquid.Engine {
 		return fmt.Sprint("<", v, ">"), nil
 	})
 	e.RegisterBlock("wrap", func(ctx render.Context) (string, error) {
+		if err := cbTick(); err != nil {
+			panic(err) // a block implementation that panics
+		}
 		s, err := ctx.InnerString()
 		if err != nil {
 			return "", err
 		}
 		return "[" + s + "]", nil
 	})
-	e.RegisterFilter("hx", func(s string) string { return "#" + s + "#" })
+	e.RegisterFilter("hx", func(s string) (string, error) {
+		if err := cbTick(); err != nil {
+			return "", err
+		}
+		return "#" + s + "#", nil
+	})
 	return e
 }
 
